@@ -165,6 +165,9 @@ def gen_case(name, rng):
     if name == 'Lnorm':
         c['p'] = rng.choice([0, 1, 2, 3, 'inf', 4])
         c['x'] = [rng.choice([0.0, v]) for v in x]
+        if random.Random(repr(x)).random() < 0.2:       # the power overflows: the documented fallback is the infinity norm
+            c['p'] = 200
+            c['x'] = [50.0 * v for v in c['x']]
     if name in METRICS:
         d, N, M = rng.randint(1, 4), rng.randint(1, 3), rng.randint(1, 3)
         grid = lambda r: [[float(rng.randint(-3, 3)) if rng.random() < 0.5 else rng.uniform(-3, 3)      # noqa: E731
@@ -323,10 +326,21 @@ def check(c):
         return bad, False
     if name == 'Lnorm':
         p = INF if c['p'] == 'inf' else c['p']
-        want = float(sum(1 for v in x if v != 0)) if p == 0 else max(abs(v) for v in x) if p == INF else \
-            math.fsum(abs(v) ** p for v in x) ** (1.0 / p)
+        big = max(abs(v) for v in x) if x else 0.0
+        want = float(sum(1 for v in x if v != 0)) if p == 0 else big if (p == INF or big == 0) else \
+            big * math.fsum((abs(v) / big) ** p for v in x) ** (1.0 / p)         # scaled: no overflow for large p
         got = float(call(md.Lnorm, x, p))
-        add('definition', close(got, want), 'Lnorm(%r, p=%r) = %r, definition gives %r' % (x, p, got, want))
+        try:
+            overflows = p not in (0, INF) and big > 0 and (big ** p) * len(x) == INF
+        except OverflowError:
+            overflows = True
+        if overflows:
+            # where the power overflows in floating point the code falls back on the infinity norm (its own comment): accepted
+            # as the p-norm "to overflow" -- between the largest magnitude and the exact p-norm, which differ by < n**(1/p)
+            add('definition', big * (1 - 1e-12) <= got <= want * (1 + 1e-9),
+                'Lnorm(%r, p=%r) = %r, not between the largest magnitude %r and the p-norm %r' % (x, p, got, big, want))
+        else:
+            add('definition', close(got, want), 'Lnorm(%r, p=%r) = %r, definition gives %r' % (x, p, got, want))
         return bad, False
     wx = W(x, w)
     m0, v0, r0 = o_mean(x, w), o_moment(x, w, 2), o_spread(x)
